@@ -248,6 +248,9 @@ class _Formatter:
 
         # State for the emit pass.
         self._out: list[str] = []
+        # Indices into ``_out`` of the pieces that are token text (as opposed
+        # to the whitespace put between tokens) -- see :meth:`_finalize`.
+        self._token_pieces: set[int] = set()
         self._indent_level = 0
         # Stack of opener strings — top tells us which kind of bracket
         # we're currently inside ("[" means slice context for ``:``).
@@ -364,6 +367,7 @@ class _Formatter:
             else:
                 self._out.append(self._space_between(prev, tok))
 
+            self._token_pieces.add(len(self._out))
             self._out.append(self._render_token(tok))
             self._update_state(tok)
             # Function-macro entry: ``name!(`` with no gap turns the
@@ -382,7 +386,22 @@ class _Formatter:
                 self._macro_until_depth = 0
             prev = tok
 
-        return self._finalize("".join(self._out))
+        return self._finalize("".join(self._out), self._literal_line_ends())
+
+    def _literal_line_ends(self) -> set[int]:
+        """Offsets, in the joined output, of the newlines that lie *inside*
+        a token (a multi-line string literal or f-string part). The blanks
+        in front of such a newline are the literal's content."""
+        keep: set[int] = set()
+        pos = 0
+        for i, piece in enumerate(self._out):
+            if i in self._token_pieces:
+                j = piece.find("\n", 1)
+                while j != -1:
+                    keep.add(pos + j)
+                    j = piece.find("\n", j + 1)
+            pos += len(piece)
+        return keep
 
     def _comment_indent(self, tok) -> int:
         """Indent level for a leading-line comment, derived from its
@@ -817,14 +836,18 @@ class _Formatter:
     # ---------------------------------------------------------------
     # Final cleanup
     # ---------------------------------------------------------------
-    def _finalize(self, text: str) -> str:
-        # Strip trailing whitespace from each line without disturbing
-        # line endings inside string literals (those came through as
-        # part of STRING token text and are emitted unchanged here).
-        lines = text.split("\n")
-        # ``split`` keeps a trailing empty element when the text ended
-        # with ``\n``; rstrip-ing it is harmless.
-        cleaned = [ln.rstrip(" \t") for ln in lines]
+    def _finalize(self, text: str, keep: frozenset[int] | set[int] = frozenset()) -> str:
+        # Strip trailing whitespace from each line -- except the lines that
+        # end inside a string literal (``keep``: the offsets of those line
+        # ends): there the blanks are part of the literal's value.
+        cleaned = []
+        pos = 0
+        for ln in text.split("\n"):
+            # ``split`` keeps a trailing empty element when the text ended
+            # with ``\n``; rstrip-ing it is harmless.
+            end = pos + len(ln)
+            cleaned.append(ln if end in keep else ln.rstrip(" \t"))
+            pos = end + 1
         text = "\n".join(cleaned)
         # Collapse any trailing blank lines down to a single newline -- but a
         # final backslash-newline (or backslash-CR-LF) must stay followed by a
